@@ -239,24 +239,35 @@ class Interp:
             if variant == 'Break':
                 return ('app', 'residual', x)
         if v[0] == 'phi':
-            cands = []
+            alts = []
             for p, x in v[2]:
                 vo = self.static_variant(x)
-                if vo is None or vo == variant:
-                    cands.append((p, x))
-            if len(cands) == 1:
-                return self.project_variant(st, cands[0][1], variant, field)
-            if cands and all(self.static_variant(x) == variant for _, x in cands):
-                alts = tuple((p, self.project_variant(st, x, variant, field)) for p, x in cands)
-                if all(a[1] == alts[0][1] for a in alts):
-                    return alts[0][1]
-                return ('phi', v[1] + ('.%s.%s' % (variant, field),), alts)
+                if vo is not None and vo != variant:
+                    continue
+                r = self.project_variant(st, x, variant, field)
+                if r == ('never',):
+                    continue
+                alts.append((p, r))
+            if not alts:
+                return ('never',)
+            if all(a[1] == alts[0][1] for a in alts):
+                return alts[0][1]
+            return ('phi', v[1][:2] + (str(v[1][2:]) + '.%s.%s' % (variant, field),), tuple(alts))
         if v[0] == 'ite':
             va, vb = self.static_variant(v[2]), self.static_variant(v[3])
-            if va == variant and vb is not None and vb != variant:
-                return self.project_variant(st, v[2], variant, field)
-            if vb == variant and va is not None and va != variant:
-                return self.project_variant(st, v[3], variant, field)
+            a = None if (va is not None and va != variant) else self.project_variant(st, v[2], variant, field)
+            b = None if (vb is not None and vb != variant) else self.project_variant(st, v[3], variant, field)
+            if a == ('never',):
+                a = None
+            if b == ('never',):
+                b = None
+            if a is not None and b is None:
+                return a
+            if b is not None and a is None:
+                return b
+            if a is not None and b is not None:
+                return ite(v[1], a, b)
+            return ('never',)
         if v[0] == 'app' and v[1] in ('checked_add', 'checked_sub', 'checked_mul') and variant == 'Some':
             return app(v[1][8:], v[2], v[3])
         if v[0] == 'app' and v[1] == 'layout_result' and variant == 'Ok':
@@ -278,19 +289,27 @@ class Interp:
             return self.project_variant(st, v, 'Some', '0')
         if v[0] == 'app' and v[1] == 'layout_result':
             return ('layout', v[2], v[3])
-        if v[0] == 'phi':
-            r = self.project_variant(st, v, 'Some', '0')
-            if not (r[0] == 'app' and r[1] == 'vproj'):
-                return r
-            r = self.project_variant(st, v, 'Ok', '0')
-            if not (r[0] == 'app' and r[1] == 'vproj'):
-                return r
-        if v[0] == 'ite':
+        if v[0] in ('phi', 'ite'):
+            kinds = self.variants_in(v)
             for var in ('Some', 'Ok'):
-                r = self.project_variant(st, v, var, '0')
-                if not (r[0] == 'app' and r[1] == 'vproj'):
-                    return r
+                if var in kinds:
+                    return self.project_variant(st, v, var, '0')
+            if kinds and not (kinds & {'Some', 'Ok'}) and None not in kinds:
+                return ('never',)
         return ('app', 'payload', v)
+
+    def variants_in(self, v, depth=0):
+        """set of statically known variant names among the alternatives of v (None = unknown alt)"""
+        if depth > 6:
+            return {None}
+        if v[0] == 'phi':
+            out = set()
+            for _, x in v[2]:
+                out |= self.variants_in(x, depth + 1)
+            return out
+        if v[0] == 'ite':
+            return self.variants_in(v[2], depth + 1) | self.variants_in(v[3], depth + 1)
+        return {self.static_variant(v)}
 
     def static_variant(self, v):
         if v[0] == 'agg':
